@@ -775,8 +775,21 @@ func c10SpellRun(x *explore.Ctx) {
 	dev("sp", 0, len(fixture.SymbolSpaces), 0)
 	dev("wsp", 0, nsp, 0)
 	dev("upper", 0, 2, 0)
+	nx := 3 // white space outside the documented set (blank, tab, line break): quick = form feed / no-break space
+	if x.Thorough() {
+		nx = len(c10Exotic)
+	}
+	exotic := false
+	if xi := x.Deviate(nx, "xsp"); xi != 0 {
+		// which separator it replaces: every run of white space of the spelled text
+		runs := c10SpaceRuns(fixture.Render(t, c10Style(devs, paren, false)))
+		if len(runs) > 0 {
+			devs = append(devs, c10Dev{"xsp", x.Choose(len(runs), "xsp-position"), xi, 0})
+			exotic = true
+		}
+	}
 
-	word := fixture.Render(t, c10Style(devs, paren, false))
+	word := c10RenderSpelled(t, devs, paren)
 	sym := fixture.Render(t, c10Style(nil, paren, false))
 	if x.Logging() {
 		x.Logf("tree %s (template %s)", t, fixture.Render(t, c10Style(nil, paren, true)))
@@ -827,6 +840,8 @@ func c10SpellRun(x *explore.Ctx) {
 	for i, r := range res {
 		class := ""
 		switch {
+		case !r.out.accepted && exotic:
+			// white space outside the documented set need not be understood; it must not be misunderstood
 		case !r.out.accepted:
 			class = "rejected"
 		case r.vec != vSym:
@@ -839,7 +854,7 @@ func c10SpellRun(x *explore.Ctx) {
 		keep := append([]c10Dev{}, devs...)
 		for k := 0; k < len(keep); {
 			try := append(append([]c10Dev{}, keep[:k]...), keep[k+1:]...)
-			if failing(fixture.Render(t, c10Style(try, paren, false))) == class {
+			if failing(c10RenderSpelled(t, try, paren)) == class {
 				keep = try
 			} else {
 				k++
@@ -870,6 +885,41 @@ func (e *c10Env) template(t *fixture.Cond, devs []c10Dev, paren fixture.ParenMod
 // c10DevSig is the signature normal form of a minimal failing set of spelling
 // deviations: the deviating spellings in rendering order, e.g. "and,not" for
 // "C and not C" and "or,not(" for "C or not(C)". The tree they occurred in is not part of it.
+// c10Exotic[i] (i>0): a white-space character outside the documented set; the deviation's cmp field
+// holds the index of the separator run of the spelled text that it replaces.
+var c10Exotic = []string{"", "\f", "\u00a0", "\v", "\u0085", "\u2028", "\u3000"}
+
+func c10IsSp(c byte) bool { return c == ' ' || c == '\t' || c == '\n' }
+
+// c10SpaceRuns lists the runs of documented white space in s.
+func c10SpaceRuns(s string) (runs [][2]int) {
+	for i := 0; i < len(s); i++ {
+		if c10IsSp(s[i]) {
+			j := i
+			for j < len(s) && c10IsSp(s[j]) {
+				j++
+			}
+			runs = append(runs, [2]int{i, j})
+			i = j
+		}
+	}
+	return
+}
+
+// c10RenderSpelled renders the tree with the deviations, including the exotic white space.
+func c10RenderSpelled(t *fixture.Cond, devs []c10Dev, paren fixture.ParenMode) string {
+	s := fixture.Render(t, c10Style(devs, paren, false))
+	for _, d := range devs {
+		if d.kind != "xsp" {
+			continue
+		}
+		if runs := c10SpaceRuns(s); d.occ < len(runs) {
+			s = s[:runs[d.occ][0]] + c10Exotic[d.idx] + s[runs[d.occ][1]:]
+		}
+	}
+	return s
+}
+
 func c10DevSig(devs []c10Dev) string {
 	var parts []string
 	for _, d := range devs {
@@ -889,6 +939,8 @@ func c10DevSig(devs []c10Dev) string {
 			}
 		case "br":
 			parts = append(parts, fixture.Brackets[d.idx][0]+fixture.Brackets[d.idx][1])
+		case "xsp":
+			parts = append(parts, fmt.Sprintf("exotic-space=%+q", c10Exotic[d.idx]))
 		case "sp":
 			parts = append(parts, fmt.Sprintf("symbol-space=%q", fixture.SymbolSpaces[d.idx]))
 		case "wsp":
@@ -1013,7 +1065,7 @@ func init() {
 	})
 	register("C10.spell", &explore.Scenario{
 		ID: "C10", Name: "generated conditions in every documented spelling vs their symbol form", Level: "exploration",
-		Rule:  "case = first leaf (9 leaves using all six comparators, a protocol name, address/network/sugar) x class; execution = tree (leaf, !leaf, every two-leaf tree {&,|} x negation placement over 9x9 leaves, depth-2 trees (A op B) op (C op D) with 4 operator and 6 negation patterns; second leaf of two-leaf trees: 3 (quick) / 5 (thorough) of the alphabet) x brace mode (full / relying on documented precedence) x spelling deviations: each operator OCCURRENCE (comparator: all documented word/symbol spellings; and/or: word, doubled symbol, * or +; not: 'not ' and attached 'not('; braces () [] {}), symbol spacing {' ', none, two spaces, tab}, word spacing {' ', two spaces, tab, (thorough) newline}, upper-casing; all combinations of <= bound deviations (2 quick, 3 thorough) from the all-symbols rendering. Oracle: symbol form accepted; spelled form accepted under every relevant rule order and selecting the same flows as the symbol form (differential, real code on both sides); plus the canonical-form oracles of C10. Failures are minimised to the smallest set of deviations that still fails: signature = template such as 'C and not C'",
+		Rule:  "case = first leaf (9 leaves using all six comparators, a protocol name, address/network/sugar) x class; execution = tree (leaf, !leaf, every two-leaf tree {&,|} x negation placement over 9x9 leaves, depth-2 trees (A op B) op (C op D) with 4 operator and 6 negation patterns; second leaf of two-leaf trees: 3 (quick) / 5 (thorough) of the alphabet) x brace mode (full / relying on documented precedence) x spelling deviations: each operator OCCURRENCE (comparator: all documented word/symbol spellings; and/or: word, doubled symbol, * or +; not: 'not ' and attached 'not('; braces () [] {}), symbol spacing {' ', none, two spaces, tab}, word spacing {' ', two spaces, tab, (thorough) newline}, upper-casing, one separator replaced by white space outside the documented set (form feed, no-break space; thorough also VT, NEL, U+2028, U+3000; at every separator position: such input may be rejected but, if accepted, must mean the same); all combinations of <= bound deviations (2 quick, 3 thorough) from the all-symbols rendering. Oracle: symbol form accepted; spelled form accepted under every relevant rule order and selecting the same flows as the symbol form (differential, real code on both sides); plus the canonical-form oracles of C10. Failures are minimised to the smallest set of deviations that still fails: signature = template such as 'C and not C'",
 		Cases: func(string) int { return 2 * len(c10Leaves) }, Bound: func(t string) int {
 			if t == "thorough" {
 				return 3
